@@ -68,15 +68,30 @@ def run(scn, seed, line_p=0.05, stick=0.5, decisions=None, rpc_timeout=2):
             st['confirming'].add(c)
         for c, tag in scn.get('consumers', []):
             st['chans'][c].basic.consume(lambda m: None, 'q', consumer_tag=tag)
-    t0 = rt.spawn('setup', setup)
-    try:
-        rt.run()
-    except crt.Hang as why:
-        rt.teardown()
-        raise RuntimeError('set-up hangs: %s' % why)
-    if t0.exc is not None:
-        rt.teardown()
-        raise RuntimeError('set-up failed: %r' % (t0.exc,))
+    if scn.get('no_setup'):
+        st['confirming'] = set()
+        if scn.get('eof_on_connect'):
+            old_attach = rt.on_connect
+
+            def attach_and_drop(sock):
+                old_attach(sock)
+                br.drop('eof')
+            rt.on_connect = attach_and_drop
+    else:
+        t0 = rt.spawn('setup', setup)
+        try:
+            rt.run()
+        except crt.Hang as why:
+            rt.teardown()
+            raise RuntimeError('set-up hangs: %s' % why)
+        if t0.exc is not None:
+            rt.teardown()
+            raise RuntimeError('set-up failed: %r' % (t0.exc,))
+    if scn.get('slow_closeok'):
+        def hold(b, ch, fr):
+            b.release_at = rt.now + scn['slow_closeok']
+            return False
+        br.handlers['Connection.Close'] = hold
     mark = len(br.ledger_in)
     rt.line_p = line_p
     if scn.get('partial'):
@@ -129,6 +144,9 @@ def run(scn, seed, line_p=0.05, stick=0.5, decisions=None, rpc_timeout=2):
         if k == 'conn_close':
             conn.close()
             return 'CRNone'
+        if k == 'conn_open':
+            conn.open()
+            return 'CRNone'
         ch = st['chans'][c]
         if k == 'declare':
             r = ch.queue.declare(op[1].decode('latin-1'))
@@ -157,10 +175,19 @@ def run(scn, seed, line_p=0.05, stick=0.5, decisions=None, rpc_timeout=2):
         raise ValueError(op)
 
     order = []
+    extra = {}
+
+    def at_return():
+        from harness.chanrt import STATES as _ST
+        inv = rt.inventory()
+        socks = sum(1 for s in rt.sockets if s.connected and not s.closed)
+        return '(%s, (%s, %s, %s))' % (_ST[conn.current_state], coq_nat(socks),
+                                       coq_nat(inv['live_threads']), coq_nat(inv['armed_timers']))
 
     def worker(i, ops):
         def f():
             for j, (c, op) in enumerate(ops):
+                t_start = rt.now
                 try:
                     r = do(c, op)
                 except crt.TaskKilled:
@@ -172,6 +199,7 @@ def run(scn, seed, line_p=0.05, stick=0.5, decisions=None, rpc_timeout=2):
                     if not ec:
                         st.setdefault('other', []).append(repr(why))
                 results[(i, j)] = r
+                extra[(i, j)] = (int(round((rt.now - t_start) * 1000)), at_return())
                 order.append((i, j))
         return f
     for i, ops in enumerate(scn['threads']):
@@ -203,8 +231,11 @@ def run(scn, seed, line_p=0.05, stick=0.5, decisions=None, rpc_timeout=2):
     rt.teardown()
     wire = [(ch, fr) for (_, ch, fr, _) in br.ledger_in[mark:]]
     events_coq = coq_list([
-        '{| ce_thread := %s; ce_idx := %s; ce_chan := %s; ce_op := %s; ce_res := %s |}' % (
-            coq_nat(i), coq_nat(j), coq_nat(c), cop_coq(op), results[(i, j)])
+        '{| ce_thread := %s; ce_idx := %s; ce_chan := %s; ce_op := %s; ce_res := %s; '
+        'ce_dur := %s; ce_ret := %s |}' % (
+            coq_nat(i), coq_nat(j), coq_nat(c), cop_coq(op), results[(i, j)],
+            coq_Z(extra.get((i, j), (99999, ''))[0]),
+            extra.get((i, j), (0, '(OPEN, (9, 9, 9)%nat)'))[1])
         for i, ops in enumerate(scn['threads']) for j, (c, op) in enumerate(ops)])
     from harness.chanrt import STATES
     socks = sum(1 for s in rt.sockets if s.connected and not s.closed)
@@ -241,7 +272,7 @@ def cop_coq(op):
     if k == 'cancel':
         return '(CCancel %s)' % coq_bytes(op[1])
     return {'get': 'CGet', 'ack': 'CAck', 'open': 'COpenChan', 'check': 'CCheck',
-            'conn_close': 'CConnClose'}[k]
+            'conn_close': 'CConnClose', 'conn_open': 'CConnOpen'}[k]
 
 
 def wire_coq(ch, fr):
